@@ -156,6 +156,7 @@ theorem good_updateClient {s : St} (h : Good s) (c : Nat) (w : Wrap) (hd : Hdr) 
   unfold updateClient
   cases w with
   | nested => exact ⟨h.clients, h.agree⟩
+  | storedProposal => exact ⟨h.clients, h.agree⟩
   | wrapped => exact ⟨h.clients, h.agree⟩
   | nestedWrapped => exact ⟨h.clients, h.agree⟩
   | top =>
@@ -227,7 +228,7 @@ theorem good_misbehaviour {s : St} (h : Good s) (c : Nat) (k : MKind) (ibc : Boo
       | exact ⟨h.clients, h.agree⟩
       | exact hfz
 
-theorem chanAck_descs (s : St) (ch : Nat) (ibc : Bool) : (chanAck s ch ibc).1.descs = s.descs := by
+theorem chanAck_descs (s : St) (ch : Nat) (w : ChanRoute) (ibc : Bool) : (chanAck s ch w ibc).1.descs = s.descs := by
   unfold chanAck
   repeat' split
   all_goals rfl
@@ -254,9 +255,9 @@ theorem step_good {s : St} (h : Good s) (op : Op) (hs : SafeOp s op) : Good (ste
   | chanInit c =>
     obtain ⟨a, _, d⟩ := chanInit_maps s c
     exact ⟨h.clients.of_eq d, (h.agree.toEx _ |>.of_eq d (chanInit_descs s c) a).toInv⟩
-  | chanAck ch ibc =>
-    obtain ⟨a, _, d⟩ := chanAck_maps s ch ibc
-    exact ⟨h.clients.of_eq d, (h.agree.toEx _ |>.of_eq d (chanAck_descs s ch ibc) a).toInv⟩
+  | chanAck ch w ibc =>
+    obtain ⟨a, _, d⟩ := chanAck_maps s ch w ibc
+    exact ⟨h.clients.of_eq d, (h.agree.toEx _ |>.of_eq d (chanAck_descs s ch w ibc) a).toInv⟩
 
 theorem init_good (p : Core.Params) : Good (init p) :=
   ⟨init_mapsInv p, fun _ h => by simp [init] at h, fun _ _ _ _ _ _ a => by simp [init, lookup] at a, init_coreChain p⟩
